@@ -49,12 +49,12 @@ func (dm *defaultMkdirerPipeline) worker(ctx context.Context, wg *sync.WaitGroup
 			}
 			if dm.isExistRoot([]*Node{root}) {
 				verifPoint("mkdir.err")
-				errc <- ErrExistPath
+				sendErr(ctx, errc, ErrExistPath)
 				return
 			}
 			if err := dm.makeDirectoriesAndFiles(root); err != nil {
 				verifPoint("mkdir.err")
-				errc <- err
+				sendErr(ctx, errc, err)
 				return
 			}
 		}
